@@ -28,8 +28,62 @@ def _method(p: Program, ci: ClassInfo, name: str) -> FuncInfo:
     return raw
 
 
-def _calls(fn: ast.AST, attr: str) -> List[ast.Call]:
-    return [n for n in ast.walk(fn) if isinstance(n, ast.Call) and isinstance(n.func, ast.Attribute) and n.func.attr == attr]
+_PROGRAM = {}
+
+
+def expanded(fi: FuncInfo, depth: int = 3) -> List[ast.AST]:
+    """The method's own tree plus the trees of the helpers of the same class
+    (self._x(...), cls._x(...)) and of the same module (_x(...)) it calls:
+    extracting a helper does not hide what a method does."""
+    p = _PROGRAM.get("p")
+    out, seen, todo = [], set(), [(fi, depth)]
+    while todo:
+        f, d = todo.pop()
+        if id(f) in seen:
+            continue
+        seen.add(id(f))
+        out.append(f.node)
+        if d <= 0 or p is None:
+            continue
+        for n in ast.walk(f.node):
+            if isinstance(n, ast.Call):
+                g = None
+                if isinstance(n.func, ast.Attribute) and isinstance(n.func.value, ast.Name) and n.func.value.id in ("self", "cls") and f.owner is not None:
+                    _, g = p.class_attr_def(f.owner, n.func.attr)
+                elif isinstance(n.func, ast.Name):
+                    g = f.module.functions.get(n.func.id)
+                if isinstance(g, FuncInfo):
+                    todo.append((g, d - 1))
+            elif isinstance(n, ast.Attribute) and isinstance(n.value, ast.Name) and n.value.id == "self" and f.owner is not None:
+                _, g = p.class_attr_def(f.owner, n.attr)
+                if isinstance(g, FuncInfo) and g.kind == "property":
+                    todo.append((g, d - 1))
+    return out
+
+
+def xwalk(fi: FuncInfo):
+    for tree in expanded(fi):
+        for n in ast.walk(tree):
+            yield n
+
+
+def xsrc(fi: FuncInfo) -> str:
+    return " ".join(_src(fi, t) if t is fi.node else re.sub(r"\s+", " ", ast.unparse(t)) for t in expanded(fi))
+
+
+def _calls(fn, attr: str) -> List[ast.Call]:
+    it = xwalk(fn) if isinstance(fn, FuncInfo) else ast.walk(fn)
+    return [n for n in it if isinstance(n, ast.Call) and isinstance(n.func, ast.Attribute) and n.func.attr == attr]
+
+
+def _resolve_alias(fn_nodes, e: ast.expr) -> ast.expr:
+    """a local bound exactly once to an expression stands for that expression"""
+    if isinstance(e, ast.Name):
+        defs = [n.value for t in fn_nodes for n in ast.walk(t) if isinstance(n, ast.Assign) and len(n.targets) == 1
+                and isinstance(n.targets[0], ast.Name) and n.targets[0].id == e.id]
+        if len(defs) == 1:
+            return defs[0]
+    return e
 
 
 def _self_attr_uses(fn: ast.AST, attr: str) -> List[ast.Attribute]:
@@ -38,6 +92,7 @@ def _self_attr_uses(fn: ast.AST, attr: str) -> List[ast.Attribute]:
 
 def registry_rules(ctx, rule: str):
     p = ctx.program
+    _PROGRAM["p"] = p
     r = ctx.report
     base = "moclo.registry.base."
     # ---------------- CombinedRegistry ----------------
@@ -60,19 +115,32 @@ def registry_rules(ctx, rule: str):
             if tgt:
                 writers.append((raw, tgt[0], tgt[1]))
     add = _method(p, comb, "add_registry")
+    parents = {}
+    for nd in ast.walk(add.node):
+        for ch in ast.iter_child_nodes(nd):
+            parents[id(ch)] = nd
     for raw, kind, node in writers:
         ok = raw is add and kind == "setdefault"
         if ok:
             a = node.args
             ok = len(a) == 2 and _src(raw, a[0]).endswith(".id") and isinstance(a[1], ast.Name) and _src(raw, a[0]).split(".")[0] == a[1].id
+        elif raw is add and kind == "subscript-store":
+            # if item.id not in self._data: self._data[item.id] = item
+            key = node.targets[0].slice
+            g = parents.get(id(node))
+            ok = (isinstance(g, ast.If) and node in g.body and isinstance(g.test, ast.Compare) and len(g.test.ops) == 1 and isinstance(g.test.ops[0], ast.NotIn)
+                  and _dump(g.test.left) == _dump(key) and _src(raw, g.test.comparators[0]) == "self._data" and not g.orelse
+                  and _src(raw, key).endswith(".id") and isinstance(node.value, ast.Name) and _src(raw, key).split(".")[0] == node.value.id)
         r.ob(rule + ".combined-first-wins", "%s@%s" % (raw.qualname, kind), ok,
              "the only writer of a combined registry must be insert-if-absent keyed by the item's own id (first member wins): `%s`" % _src(raw, node),
              "%s:%d" % (raw.module.relpath, node.lineno))
     r.floor(rule + ".combined-first-wins", 1)
     # the union covers all values of the member
     loops = [n for n in ast.walk(add.node) if isinstance(n, ast.For)]
+    guards = [n for n in ast.walk(loops[0]) if isinstance(n, ast.If)] if loops else []
     ok = len(loops) == 1 and _src(add, loops[0].iter).replace(" ", "") in ("six.itervalues(registry)", "itervalues(registry)", "registry.values()", "list(registry.values())") and not any(
-        isinstance(n, (ast.If, ast.Break, ast.Continue)) for n in ast.walk(loops[0]))
+        isinstance(n, (ast.Break, ast.Continue)) for n in ast.walk(loops[0])) and all(
+        isinstance(g.test, ast.Compare) and isinstance(g.test.ops[0], ast.NotIn) and _src(add, g.test.comparators[0]) == "self._data" for g in guards)
     r.ob(rule + ".combined-union", add.qualname, ok, "add_registry must visit every item of the member unconditionally: `%s`" % (_src(add, loops[0]) if loops else "no loop"), add.where())
     for name, want, forms in (("__getitem__", "self._data[item]", ("self._data[item]", "self._data.__getitem__(item)")),
                               ("__iter__", "iter(self._data)", ("iter(self._data)", "self._data.__iter__()", "iter(self._data.keys())")),
@@ -89,33 +157,37 @@ def registry_rules(ctx, rule: str):
     # ---------------- EmbeddedRegistry ----------------
     emb = p.get_class(base + "EmbeddedRegistry")
     data = _method(p, emb, "_data")
+    dnodes = expanded(data)
     stores = [n for n in ast.walk(data.node) if isinstance(n, ast.Assign) and any(isinstance(t, ast.Subscript) for t in n.targets)]
     ok = len(stores) == 1
     det = "expected one keyed store building the table"
     if ok:
         st = stores[0]
         key = st.targets[0].slice
-        val = st.value
+        items = [n for n in xwalk(data) if isinstance(n, ast.Call) and isinstance(n.func, ast.Name) and n.func.id == "Item"]
         idkw = None
-        if isinstance(val, ast.Call):
-            for kw in val.keywords:
+        if len(items) == 1:
+            for kw in items[0].keywords:
                 if kw.arg == "id":
                     idkw = kw.value
-            if idkw is None and val.args:
-                idkw = val.args[0]
-        ok = idkw is not None and _dump(key) == _dump(idkw) and _src(data, key).endswith(".id")
-        det = "an item must be filed under the id it carries: key `%s`, Item id `%s`" % (_src(data, key), _src(data, idkw) if idkw is not None else None)
+            if idkw is None and items[0].args:
+                idkw = items[0].args[0]
+        if idkw is not None:
+            idkw = _resolve_alias(dnodes, idkw)
+        ok = idkw is not None and _dump(key) == _dump(idkw) and ast.unparse(key).endswith(".id")
+        det = "an item must be filed under the id it carries: key `%s`, Item id `%s`" % (ast.unparse(key), ast.unparse(idkw) if idkw is not None else None)
     r.ob(rule + ".embedded-key-is-id", data.qualname, ok, det, data.where())
-    wrap = [n for n in ast.walk(data.node) if isinstance(n, ast.Call) and isinstance(n.func, ast.Name) and n.func.id == "CircularRecord"]
-    okw = bool(wrap) and any("SeqIO.read" in _src(data, w) for w in wrap)
-    # the record handed to the entity loader is the wrapped one
-    okw = okw and all(_uses_name(kw.value, _assigned_name(data, wrap[0])) for st in stores for kw in getattr(st.value, "keywords", []) if kw.arg in ("entity", "resistance"))
+    wrap = [n for n in xwalk(data) if isinstance(n, ast.Call) and isinstance(n.func, ast.Name) and n.func.id == "CircularRecord"]
+    okw = bool(wrap) and any("SeqIO.read" in ast.unparse(w) for w in wrap)
+    # every SeqIO.read result is wrapped
+    reads = [n for n in xwalk(data) if isinstance(n, ast.Call) and "SeqIO.read" in ast.unparse(n.func)]
+    okw = okw and all(any(rd in list(ast.walk(w)) for w in wrap) for rd in reads)
     r.ob(rule + ".circular-record", data.qualname, okw, "records must be wrapped in CircularRecord before the entity is built", data.where())
     it = _method(p, emb, "__iter__")
     ln = _method(p, emb, "__len__")
     gi = _method(p, emb, "__getitem__")
     elts = [n.elt for n in ast.walk(it.node) if isinstance(n, ast.GeneratorExp)] + [n.value for n in ast.walk(it.node) if isinstance(n, ast.Yield) and n.value is not None]
-    ok = ("tar" in _src(it, it.node) and not any(isinstance(n, ast.If) for n in ast.walk(it.node)) and bool(elts)
+    ok = ("tar" in xsrc(it) and not any(isinstance(n, ast.If) for n in ast.walk(it.node)) and bool(elts)
           and all(isinstance(x, ast.Attribute) and x.attr == "name" and isinstance(x.value, ast.Name) for x in elts))
     ok = ok or _returns_only(it, ("iter(self._data)", "iter(self._data.keys())"))
     r.ob(rule + ".embedded-siblings", it.qualname, ok, "iteration must yield every archive member name", it.where())
@@ -125,9 +197,9 @@ def registry_rules(ctx, rule: str):
     rets = [n for n in ast.walk(gi.node) if isinstance(n, ast.Return)]
     ok = len(rets) == 1 and _src(gi, rets[0].value) == "self._data[item]"
     r.ob(rule + ".embedded-siblings", gi.qualname, ok, "lookup must be the table built from the archive (KeyError when absent)", gi.where())
-    files_da = [_src(data, a) for c in _calls(data.node, "resource_stream") for a in c.args]
-    files_it = [_src(it, a) for c in _calls(it.node, "resource_stream") for a in c.args] or files_da
-    files_ln = [_src(ln, a) for c in _calls(ln.node, "resource_stream") for a in c.args] or files_da
+    files_da = [ast.unparse(a) for c in _calls(data, "resource_stream") for a in c.args]
+    files_it = [ast.unparse(a) for c in _calls(it, "resource_stream") for a in c.args] or files_da
+    files_ln = [ast.unparse(a) for c in _calls(ln, "resource_stream") for a in c.args] or files_da
     r.ob(rule + ".embedded-siblings", emb.qualname + "#archive", files_it == files_ln == files_da and bool(files_it),
          "iteration, length and lookup must read the same archive: %s / %s / %s" % (files_it, files_ln, files_da), emb.where())
     # every concrete embedded registry keeps these three (no override that breaks the agreement)
@@ -144,14 +216,14 @@ def registry_rules(ctx, rule: str):
     it = _method(p, fsr, "__iter__")
     ln = _method(p, fsr, "__len__")
     gi = _method(p, fsr, "__getitem__")
-    fd_it = _calls(it.node, "filterdir")
-    fd_ln = _calls(ln.node, "filterdir")
+    fd_it = _calls(it, "filterdir")
+    fd_ln = _calls(ln, "filterdir")
     ok = len(fd_it) == 1 and len(fd_ln) == 1 and _dump(fd_it[0]) == _dump(fd_ln[0])
     ok = ok or (len(fd_it) == 1 and _len_via_iteration(ln))
     r.ob(rule + ".filesystem-siblings", fsr.qualname + "#iter/len", ok,
-         "iteration and length must enumerate the same files: `%s` vs `%s`" % (_src(it, fd_it[0]) if fd_it else None, _src(ln, fd_ln[0]) if fd_ln else None), it.where())
+         "iteration and length must enumerate the same files: `%s` vs `%s`" % (ast.unparse(fd_it[0]) if fd_it else None, ast.unparse(fd_ln[0]) if fd_ln else None), it.where())
     if fd_it:
-        srcs = _src(it, fd_it[0])
+        srcs = ast.unparse(fd_it[0])
         ok = "files=self._files" in srcs.replace(" ", "") and "exclude_dirs" in srcs
         r.ob(rule + ".filesystem-siblings", fsr.qualname + "#filter", ok, "enumeration must be restricted to the supported extensions and ignore sub-directories: `%s`" % srcs, it.where())
     files = fsr.attrs.get("_files")
@@ -161,20 +233,21 @@ def registry_rules(ctx, rule: str):
     r.ob(rule + ".filesystem-siblings", gi.qualname + "#extensions", ok, "lookup must try exactly the supported extensions (self._extensions)", gi.where())
     # yielded key is the stem
     ys = [n for n in ast.walk(it.node) if isinstance(n, ast.Yield)]
-    ok = len(ys) == 1 and "splitext" in _src(it, it.node) and not any(isinstance(n, ast.If) for n in ast.walk(it.node))
+    ok = len(ys) == 1 and "splitext" in xsrc(it) and not any(isinstance(n, ast.If) for n in ast.walk(it.node))
     r.ob(rule + ".filesystem-siblings", it.qualname + "#stem", ok, "iteration must yield the stem of every enumerated file", it.where())
     # id is the stem of the opened file; fall-through raises KeyError
-    idset = [n for n in ast.walk(gi.node) if isinstance(n, ast.Assign) and any("record.id" in _src(gi, t) for t in n.targets)]
-    ok = len(idset) == 1 and "splitext(name)" in _src(gi, idset[0].value)
-    r.ob(rule + ".filesystem-id", gi.qualname, ok, "the item's id must be the stem of the file that was opened: `%s`" % (_src(gi, idset[0]) if idset else None), gi.where())
-    item_calls = [n for n in ast.walk(gi.node) if isinstance(n, ast.Call) and isinstance(n.func, ast.Name) and n.func.id == "Item"]
-    ok = len(item_calls) == 1 and any(kw.arg == "id" and _src(gi, kw.value) == "record.id" for kw in item_calls[0].keywords)
+    idset = [n for n in xwalk(gi) if isinstance(n, ast.Assign) and any("record.id" in ast.unparse(t) for t in n.targets)]
+    opened = [ast.unparse(c.args[0]) for c in _calls(gi, "open") if c.args]
+    ok = len(idset) == 1 and len(opened) == 1 and ("splitext(%s)" % opened[0]) in ast.unparse(idset[0].value).replace(" ", "")
+    r.ob(rule + ".filesystem-id", gi.qualname, ok, "the item's id must be the stem of the file that was opened: `%s` (opened: %s)" % (ast.unparse(idset[0]) if idset else None, opened), gi.where())
+    item_calls = [n for n in xwalk(gi) if isinstance(n, ast.Call) and isinstance(n.func, ast.Name) and n.func.id == "Item"]
+    ok = len(item_calls) == 1 and any(kw.arg == "id" and ast.unparse(kw.value) == "record.id" for kw in item_calls[0].keywords)
     r.ob(rule + ".filesystem-id", gi.qualname + "#Item", ok, "the Item must carry the record's (re-assigned) id", gi.where())
     last = gi.node.body[-1]
-    ok = isinstance(last, ast.Raise) and "KeyError" in _src(gi, last)
+    ok = isinstance(last, ast.Raise) and "KeyError" in ast.unparse(last)
     r.ob(rule + ".filesystem-keyerror", gi.qualname, ok, "an absent key must raise KeyError (fall-through of the lookup)", gi.where())
-    wrap = [n for n in ast.walk(gi.node) if isinstance(n, ast.Call) and isinstance(n.func, ast.Name) and n.func.id == "CircularRecord"]
-    ok = bool(wrap) and any(kw.arg == "entity" and "characterize(record)" in _src(gi, kw.value) for kw in item_calls[0].keywords) if item_calls else False
+    wrap = [n for n in xwalk(gi) if isinstance(n, ast.Call) and isinstance(n.func, ast.Name) and n.func.id == "CircularRecord"]
+    ok = bool(wrap) and any(kw.arg == "entity" and "characterize(record)" in ast.unparse(kw.value) for kw in item_calls[0].keywords) if item_calls else False
     r.ob(rule + ".circular-record", gi.qualname, ok, "the file's record must be wrapped in CircularRecord and that record characterised", gi.where())
 
     # ---------------- find_resistance ----------------
@@ -185,7 +258,7 @@ def registry_rules(ctx, rule: str):
     rets = [n for n in ast.walk(fr.node) if isinstance(n, ast.Return)]
     ok = bool(rets)
     for n in rets:
-        s = _src(fr, n.value) if n.value is not None else "None"
+        s = ast.unparse(n.value) if n.value is not None else "None"
         if not (s.startswith("_ANTIBIOTICS.get(") or s.startswith("_ANTIBIOTICS[")):
             ok = False
     last = fr.node.body[-1]
@@ -193,7 +266,8 @@ def registry_rules(ctx, rule: str):
     r.ob(rule + ".known-resistance", fr.qualname, ok,
          "find_resistance must return only values of the antibiotics table or raise: returns %s" % [(_src(fr, n.value) if n.value is not None else None) for n in rets], fr.where())
     # the key looked up is a member of the table (intersection with the table)
-    inter = [n for n in ast.walk(fr.node) if isinstance(n, ast.Call) and isinstance(n.func, ast.Attribute) and n.func.attr == "intersection" and n.args and _src(fr, n.args[0]) == "_ANTIBIOTICS"]
+    inter = [n for n in xwalk(fr) if isinstance(n, ast.Call) and isinstance(n.func, ast.Attribute) and n.func.attr == "intersection" and n.args and ast.unparse(n.args[0]) == "_ANTIBIOTICS"]
+    inter += [n for n in xwalk(fr) if isinstance(n, ast.Compare) and len(n.ops) == 1 and isinstance(n.ops[0], ast.In) and ast.unparse(n.comparators[0]) == "_ANTIBIOTICS"]
     r.ob(rule + ".known-resistance", fr.qualname + "#membership", bool(inter), "the label looked up must be known to be a key of the antibiotics table", fr.where())
 
 
